@@ -65,7 +65,8 @@ theorem copy_post (st st' : FS) (src dst : Bytes) (script : List Nat)
 
 /-! ## remove_dir_all -/
 
-/-- **remove_dir_all_post**: whenever `remove_dir_all(p)` returns Ok, `p` named a directory, nothing is left at or
+/-- **remove_dir_all_post** (on a file system that fills in `d_type` and on one that reports DT_UNKNOWN alike): whenever
+`remove_dir_all(p)` returns Ok, `p` named a directory, nothing is left at or
 below it, and every location that is not below it — symlink targets, siblings, ancestors — looks exactly as
 before. -/
 theorem remove_dir_all_post (exact : Bool) (st st' : FS) (p : Bytes) (h : removeDirAllOn exact st p = (st', .ok ())) :
@@ -386,6 +387,76 @@ theorem create_dir_all_special_in_the_way :
 theorem remove_dir_all_with_specials :
     errOf (removeDirAll demoKinds [100]) = none ∧ viewAfter (removeDirAll demoKinds [100]) [[100]] = some none ∧
     viewAfter (removeDirAll demoKinds [100]) [[115, 107]] = some (some (.special .sock)) := by decide +kernel
+
+/-! ## the file system under the tree: what `getdents64` reports as `d_type` (exact type, or DT_UNKNOWN) -/
+
+/-- `d_type` of an entry on a file system that fills it in names the node's kind: never Unknown, Directory exactly for
+directories, Symlink exactly for symlinks -/
+theorem file_type_exact (n : Node) :
+    fileType n.dtype ≠ .unknown ∧ (fileType n.dtype = .dir ↔ ∃ es, n = .dir es) ∧
+    (fileType n.dtype = .lnk ↔ ∃ t, n = .symlink t) := by
+  cases n with
+  | special s => cases s <;> simp [Node.dtype] <;> decide
+  | dir es => simp [Node.dtype]; decide
+  | file b => simp [Node.dtype]; decide
+  | symlink t => simp [Node.dtype]; decide
+  | fifo => simp [Node.dtype]; decide
+
+/-- **readdir_type_sound**: on BOTH kinds of file system the directory stream carries every entry with its exact NAME,
+and a type that is the exact one or Unknown — never a wrong definite type.  Together with `readdir_exactly_once` (the
+iterator yields the stream's records exactly once, in order, name and `d_type` untouched) and `fileType` (`file_type()`
+maps DT_UNKNOWN to `FileType::Unknown` and consults nothing else) this is the statement for the iteration. -/
+theorem readdir_type_sound (exact : Bool) (es : List (Name × Node)) :
+    (dirRecsOn exact es).length = (dirRecs es).length ∧
+    ∀ p ∈ (dirRecsOn exact es).zip (dirRecs es),
+      p.1.name = p.2.name ∧ (fileType p.1.dtype = fileType p.2.dtype ∨ fileType p.1.dtype = .unknown) := by
+  cases exact with
+  | true =>
+    refine ⟨by simp [dirRecsOn], ?_⟩
+    intro p hp
+    have := zip_map_left (fun r : Rec => r) (dirRecs es) p (by simpa [dirRecsOn] using hp)
+    rw [this]; exact ⟨rfl, Or.inl rfl⟩
+  | false =>
+    refine ⟨by simp [dirRecsOn], ?_⟩
+    intro p hp
+    have := zip_map_left (fun r : Rec => { r with dtype := DT_UNKNOWN }) (dirRecs es) p (by simpa [dirRecsOn] using hp)
+    rw [this]; exact ⟨rfl, Or.inr fileType_unknown⟩
+
+/-- **remove_dir_all on a DT_UNKNOWN mount** (current code): it never succeeds — every entry is `FileType::Unknown`,
+so `.`, the first entry, is handed to the plain `unlinkat`, which answers EISDIR — and the directory is left exactly as
+it was.  The property speaks of a remove_dir_all that SUCCEEDS (`remove_dir_all_post`, proved for both kinds of mount);
+failing is allowed, damaging is not: nothing was touched, inside or outside. -/
+theorem remove_all_unknown_mount_fails (fuel : Nat) (es : List (Name × Node))
+    (hn : ∀ e ∈ es, e.1.length ≤ 255 ∧ ∀ b ∈ e.1, b ≠ 0) :
+    removeAllN false (fuel + 1) (.dir es) = (.dir es, .error (.os EISDIR)) :=
+  removeAllN_unknown_fails fuel es hn
+
+def demoLinks : FS :=
+  ⟨.dir [([107], .dir [([112], .file [1])]),                                      -- k/p   (outside the tree)
+         ([116], .dir [([108], .symlink [46, 46, 47, 107]), ([102], .file [2])])], []⟩   -- t/l -> ../k, t/f
+
+/-- the same tree on the two kinds of mount: removed on one, EISDIR and untouched on the other; `k/p` untouched on both -/
+theorem remove_dir_all_two_mounts :
+    errOf (removeDirAllOn true demoLinks [116]) = none ∧ viewAfter (removeDirAllOn true demoLinks [116]) [[116]] = some none ∧
+    viewAfter (removeDirAllOn true demoLinks [116]) [[107], [112]] = some (some (.file [1])) ∧
+    errOf (removeDirAllOn false demoLinks [116]) = some (.os EISDIR) ∧
+    view (removeDirAllOn false demoLinks [116]).1.root [[116], [108]] = some (.symlink [46, 46, 47, 107]) ∧
+    view (removeDirAllOn false demoLinks [116]).1.root [[107], [112]] = some (.file [1]) := by decide +kernel
+
+/-- a `file_type()` that answers DT_UNKNOWN with a stat that FOLLOWS symlinks (`statat(dir_fd, name)`; rusl has no
+lstat): `follow name` = the node the name resolves to through links -/
+def fileTypeStatFollow (follow : Name → Option Node) (t : Nat) (name : Name) : FType :=
+  if t = DT_UNKNOWN then (match follow name with | some n => fileType n.dtype | none => .unknown) else fileType t
+
+/-- WITNESS: such a fallback violates type soundness and link safety.  For `t/l -> ../k` on a DT_UNKNOWN mount it
+reports Directory — a definite type that is wrong (the entry is a Symlink), and exactly the value on which
+`Directory::remove_all` opens the name (following the link) and recurses: into `k`, outside the tree. -/
+theorem stat_follow_fallback_unsound :
+    let follow : Name → Option Node := fun n => if n = [108] then getAt demoLinks.root [[107]] else none
+    fileTypeStatFollow follow DT_UNKNOWN [108] = .dir ∧
+    fileType (Node.symlink [46, 46, 47, 107]).dtype = .lnk ∧ fileType DT_UNKNOWN = .unknown ∧
+    ¬ (fileTypeStatFollow follow DT_UNKNOWN [108] = fileType (Node.symlink [46, 46, 47, 107]).dtype ∨
+       fileTypeStatFollow follow DT_UNKNOWN [108] = .unknown) := by decide
 
 /-! ## non-vacuity -/
 
